@@ -108,6 +108,23 @@ Section At.
     end.
 End At.
 
+(* is the hole a statement hole? *)
+Fixpoint is_shole_e (C : ectx) : bool :=
+  match C with
+  | XHole => false
+  | XVariant _ _ c _ | XCallF c _ _ | XCallA _ _ c _ _ | XAccess c _ _ | XIndexV c _ _ | XIndexI _ c _
+  | XBinL _ c _ _ | XBinR _ _ c _ | XUni _ c _ | XIfC _ c _ _ _ _ | XCaseM c _ _ _
+  | XBlob _ _ _ c _ _ _ | XColl _ _ c _ _ => is_shole_e c
+  | XIfB _ _ _ c _ _ _ _ | XCaseB _ _ _ _ _ _ c _ _ _ _ _ | XCaseF _ _ _ c _ _
+  | XFun _ _ _ _ c _ _ _ => is_shole_s c
+  end
+with is_shole_s (C : sctx) : bool :=
+  match C with
+  | YHole => true
+  | YAssignT _ c _ _ | YAssignV _ _ c _ | YDef _ _ _ _ c _ | YLoopC c _ _ | YRet c _ | YExpr c _ => is_shole_e c
+  | YLoopB _ _ c _ _ | YBlock _ c _ _ => is_shole_s c
+  end.
+
 (* sizes, for induction over the mutually defined contexts *)
 Fixpoint ectx_size (C : ectx) : nat :=
   match C with
